@@ -26,4 +26,5 @@ if not os.path.isdir(dst):
         print('extracted in %.0fs -> %s' % (secs, dst))
     finally:
         shutil.rmtree(scratch, ignore_errors=True)
+os.environ['DEVP_PATCH'] = os.path.abspath(patch)
 os.execv(sys.executable, [sys.executable, '/verif/tools/dev.py', dst] + pids)
